@@ -7,6 +7,8 @@
  N38 `D[k] = A if C else B` / `x.a = A if C else B` (a statement)  ->  `if C: D[k] = A else: D[k] = B`
  N56 adjacent `if T: A else: B` + `if T: C else: D` (same isinstance test, name not re-bound) -> `if T: A; C else: B; D`
  N39 `len(X) if X else 0` -> `len(X or ())`
+ N65 nested generator expressions are fused;  N66 `zip` of two generators over the same collection with complementary tuple patterns
+     is one generator of pairs
  N63 `X is None` right after `X.attr` was read (same block, no store, no call in between) is false
  N64 isinstance tests on a never re-bound parameter against built-in kinds are folded under the enclosing tests that decide them
  N62 worklist elimination: `todo = [P]; while todo: cur = todo.pop(); BODY; todo.extend(reversed(XS))` -> the recursion over XS
@@ -469,6 +471,53 @@ def _n60(fn):
                 st.targets = [st.targets[0].elts[0]]
                 st.value = ast.copy_location(ast.Call(ast.Name('next', ast.Load()), [ast.Call(ast.Name('iter', ast.Load()), [st.value], [])], []),
                                              st.value)
+
+
+def _n65(tree):
+    """N65 `(E(n) for n in (a for T in XS [if C]))` -> `(E(a) for T in XS [if C])` (generators: consumed element by element);
+       N66 `zip((E1 for T1 in XS), (E2 for T2 in XS))` over the same XS, T1 and T2 tuple patterns of one shape that bind different
+           positions (the others `_`) -> `((E1, E2) for T in XS)` with the merged pattern (zip takes one element from each in turn)"""
+    class T(ast.NodeTransformer):
+        def visit_GeneratorExp(self, n):
+            self.generic_visit(n)
+            if len(n.generators) == 1 and not n.generators[0].is_async and isinstance(n.generators[0].target, ast.Name) \
+                    and isinstance(n.generators[0].iter, ast.GeneratorExp) and len(n.generators[0].iter.generators) == 1 \
+                    and not n.generators[0].ifs:
+                outer, inner = n.generators[0], n.generators[0].iter
+                v = outer.target.id
+                inner_names = {x.id for x in ast.walk(inner.generators[0].target) if isinstance(x, ast.Name)}
+                # the outer element expression must not use names that the inner pattern binds (other than through v)
+                if not (inner_names & ({x.id for x in ast.walk(n.elt) if isinstance(x, ast.Name)} - {v})):
+                    elt = _Subst(lambda x: isinstance(x, ast.Name) and x.id == v and isinstance(x.ctx, ast.Load),
+                                 lambda x: copy.deepcopy(inner.elt)).visit(copy.deepcopy(n.elt))
+                    return ast.copy_location(ast.GeneratorExp(elt, inner.generators), n)
+            return n
+
+        def visit_Call(self, n):
+            self.generic_visit(n)
+            if isinstance(n.func, ast.Name) and n.func.id == 'zip' and len(n.args) == 2 and not n.keywords \
+                    and all(isinstance(a, ast.GeneratorExp) and len(a.generators) == 1 and not a.generators[0].ifs
+                            and not a.generators[0].is_async for a in n.args):
+                g1, g2 = n.args[0].generators[0], n.args[1].generators[0]
+                if ast.dump(g1.iter) == ast.dump(g2.iter) and isinstance(g1.target, ast.Tuple) and isinstance(g2.target, ast.Tuple) \
+                        and len(g1.target.elts) == len(g2.target.elts) \
+                        and all(isinstance(x, ast.Name) for x in g1.target.elts + g2.target.elts):
+                    merged = []
+                    ok = True
+                    for a, b in zip(g1.target.elts, g2.target.elts):
+                        if a.id == '_' or a.id.startswith('___'):
+                            merged.append(ast.Name(b.id, ast.Store()))
+                        elif b.id == '_' or b.id.startswith('___'):
+                            merged.append(ast.Name(a.id, ast.Store()))
+                        elif a.id == b.id:
+                            merged.append(ast.Name(a.id, ast.Store()))
+                        else:
+                            ok = False
+                    if ok:
+                        pair = ast.Tuple([n.args[0].elt, n.args[1].elt], ast.Load())
+                        return ast.copy_location(ast.GeneratorExp(pair, [ast.comprehension(ast.Tuple(merged, ast.Store()), g1.iter, [], 0)]), n)
+            return n
+    return T().visit(tree)
 
 
 def _n47(tree):
@@ -984,6 +1033,7 @@ def _n63(fn):
 def pre_normalize(tree: ast.Module) -> ast.Module:
     tree = _n39(tree)
     tree = _n47(tree)
+    tree = _n65(tree)
     tree = _n53(tree)
     _n42(tree)
     counter = [0]
